@@ -16,9 +16,16 @@
                       (the main model); `sampleLaw false` = the pinned tree, which dereferences an
                       unset detector (`None`) in a mixed list: `sample_total_fails_on_current_code`.
 
-  Not proved (stretch goal, see the comment in the tree section): `bsTree_half_eq_wires`.
+  `bsTree_half_eq_wires` (the design's stretch goal) is proved: for reflectivity 1/2 the click law of
+  the beam-splitter tree of depth `L` IS the wire law of `2^L` wires (`Lemmas/C08Tree.lean`).
+  `simulate_detectors` at a positive `min_p`: exact law and deviation bound (`Lemmas/C08MinP.lean`).
+  `check_heralds_detectors`: exact characterisation of its three results (`Lemmas/C08Heralds.lean`).
+  What is still not proved is listed at the end of this file.
 -/
 import PercevalModel.Lemmas.C08
+import PercevalModel.Lemmas.C08Tree
+import PercevalModel.Lemmas.C08MinP
+import PercevalModel.Lemmas.C08Heralds
 import Mathlib.Algebra.Order.Field.Rat
 
 set_option linter.unusedSectionVars false
@@ -174,10 +181,41 @@ theorem bsDetect_mass_one {L : ℕ} {r : K} {p : ℕ × K} (h : mkBS L r = .ok p
   have := kernel_mass_one (K := K) (minP := 0) (le_refl _) (.bs p.1 p.2) (mkBS_wf h) n
   simpa [AnyDet.kernel, AnyDet.detect] using this
 
-/- NOT PROVED (stretch goal of the design):
-   `bsTree_half_eq_wires : prob (bsDetect L (1/2) n).toDist k = closed (2^L) k n`
-   (a balanced tree of depth `L` is `2^L` equally likely wires).  The correspondence compares
-   `BSLayeredPPNR(L, 0.5).detect(n)` with the closed form on every run instead. -/
+/-- **bsTree_half_eq_wires** (the design's stretch goal). For reflectivity `1/2`, every depth `L`
+(including the degenerate `L = 0`: one wire), every photon number `n` and every click count `k`, the
+dictionary `BSLayeredPPNR(L, 1/2).detect(n)` builds — from the multinomial leaf law over the `2^L`
+outputs with path weights `r^zeros (1-r)^ones`, thresholded and summed per click count — holds at `k`
+exactly what `Detector._cond_probability(k, n)` gives on `2^L` wires: a balanced tree of depth `L`
+IS `2^L` equally likely saturating wires. -/
+theorem bsTree_half_eq_wires (L n k : ℕ) :
+    prob (bsDetect L (1 / 2 : K) n).toDist k = condProb (2 ^ L) k n := by
+  rw [condProb_eq_closed]
+  unfold bsDetect
+  split
+  · next hn =>
+    rw [closed_point (K := K) (2 ^ L) (Nat.pow_pos (by omega)) (Or.inl (by omega : n ≤ 1)) k]
+    have hm : min n 1 = n := by omega
+    rw [hm]
+    simp only [DetOut.toDist, prob]
+    by_cases h : n = k
+    · simp [h]
+    · have h' : ¬ k = n := fun e => h e.symm
+      simp [h, h']
+  · exact prob_aggregate_treeOcc_half L n k
+
+/-- the same in closed form: `C(w,k)·S(n,k)·k!/wⁿ` with `w = 2^L` -/
+theorem bsTree_half_closed (L n k : ℕ) :
+    prob (bsDetect L (1 / 2 : K) n).toDist k
+      = (((2 ^ L).choose k * Nat.stirlingSecond n k * k.factorial : ℕ) : K) / ((2 ^ L : ℕ) : K) ^ n := by
+  rw [bsTree_half_eq_wires, condProb_closed]
+
+/-- the two PPNR models agree: the balanced tree of depth `L` returns, entry by entry, what the
+interleaved detector `Detector(2^L)` (no `max_detections`) returns -/
+theorem bsTree_half_eq_detector (L : ℕ) {d : Det} (hd : mkDetector (some (2 ^ L)) none = .ok d)
+    {minP : K} (hmin : minP ≤ 0) (n k : ℕ) :
+    prob (bsDetect L (1 / 2 : K) n).toDist k = prob (d.detect minP n).toDist k := by
+  rw [detect_fold hd (by simp) hmin n k, bsTree_half_eq_wires, condProb_eq_closed]
+  exact (readLaw_full (2 ^ L) n k).symm
 
 end tree
 
@@ -330,7 +368,218 @@ theorem simulate_detectors_normalised (minP : K) (ds : List (AnyDet K)) (dist : 
   simp only [simulate, if_neg hbr]
   rw [prob_eq_wt _ (by rw [keys_normalize]; exact hnd), wt_normalize, if_neg hm, prob_eq_wt _ hnd]
 
+
+/-- **exact law at ANY `min_p`** (in particular the shipped `1e-16`). Outside the all-PNR branch, for
+every list of constructible detectors, every input distribution (no sign condition) over states of the
+right length, every photon filter and every output state `t` passing the filter, the un-normalised
+result holds at `t`
+* all-threshold branch: `∑_{(s,p)} p · ∏_i kernel_i(s_i)(t_i)` (that branch never calls `add`);
+* general branch: ONE contribution `p · ∏_i kernel_i(s_i)(t_i)` per input state `(s,p)`, each kept
+  if it exceeds `min_p` and dropped otherwise (`keep`),
+where the kernels are the detectors' results at the same `min_p`; their entries are in turn the
+`min_p = 0` entries, kept or dropped (`kernel_entry_minp` below). -/
+theorem simulate_detectors_pointwise_minp (minP : K) (ds : List (AnyDet K))
+    (hwf : ∀ d ∈ ds, d.WF) (dist : Dist (List ℕ) K)
+    (hlen : ∀ e ∈ dist, e.1.length = ds.length) (minPhotons : Option ℕ)
+    (hbr : ¬ (dist.isEmpty ∨ detectionType ds = .PNR)) (t : List ℕ) :
+    prob (simulateRaw minP dist ds minPhotons).1 t
+      = if belowFilter minPhotons t then 0
+        else if detectionType ds = .Threshold then
+          (dist.map fun e => e.2 * kprod (kernels minP ds e.1) t).sum
+        else (dist.map fun e => keep minP (e.2 * kprod (kernels minP ds e.1) t)).sum := by
+  simp only [simulateRaw, if_neg hbr]
+  split
+  · next hthr =>
+    rw [prob_eq_wt _ (simThreshold_nodup minPhotons dist), simThreshold_wt]
+    have hall := detectionType_threshold_all ds hthr
+    congr 2
+    apply List.map_congr_left
+    intro e he
+    rw [kprod_threshold minP ds hall e.1 (hlen e he) t]
+  · have hne : ds ≠ [] := by
+      intro h; subst h; exact hbr (Or.inr rfl)
+    rw [prob_eq_wt _ (simGeneral_nodup minP minPhotons ds dist),
+      simGeneral_wt_minp minP minPhotons ds hwf hne dist hlen t]
+
+/-- every entry of a mode's detector result at `min_p` is the entry of the `min_p = 0` law (the
+folded click law of `detect_fold`, the tree law, or a point mass), untouched or passed through
+`add`: kept if it exceeds `min_p`, dropped otherwise -/
+theorem kernel_entry_minp (minP : K) (d : AnyDet K) (hd : d.WF) (n k : ℕ) :
+    prob (d.kernel minP n) k = prob (d.kernel 0 n) k ∨
+      prob (d.kernel minP n) k = keep minP (prob (d.kernel 0 n) k) := by
+  rw [prob_eq_wt _ (kernel_nodup minP d n), prob_eq_wt _ (kernel_nodup 0 d n)]
+  exact kernel_wt_minp minP d hd n k
+
+/-- **deviation bound for `min_p ≥ 0`: at most `min_p` per contribution.** Outside the all-PNR
+branch, for every list of `m` constructible detectors, every non-negative input distribution over
+states of the right length, every photon filter and every output state `t`: the un-normalised result
+at `t` is never above the exact (`min_p = 0`) law `E(t)` of `simulate_detectors_pointwise`, and below
+it by at most `min_p·(m·mass(dist) + |dist|)` — per input state `(s,p)`: `m` kernel entries that may
+each have lost `≤ min_p` (weighted by `p`) and one accumulation that may have lost `≤ min_p`.
+(All-threshold branch: no deviation at all.) -/
+theorem simulate_detectors_minp_bound {minP : K} (h0 : 0 ≤ minP) (ds : List (AnyDet K))
+    (hwf : ∀ d ∈ ds, d.WF) (dist : Dist (List ℕ) K) (hnn : Nonneg dist)
+    (hlen : ∀ e ∈ dist, e.1.length = ds.length) (minPhotons : Option ℕ)
+    (hbr : ¬ (dist.isEmpty ∨ detectionType ds = .PNR)) (t : List ℕ) :
+    prob (simulateRaw minP dist ds minPhotons).1 t
+        ≤ (if belowFilter minPhotons t then 0
+           else (dist.map fun e => e.2 * kprod (kernels 0 ds e.1) t).sum) ∧
+      (if belowFilter minPhotons t then 0
+        else (dist.map fun e => e.2 * kprod (kernels 0 ds e.1) t).sum)
+          - minP * ((ds.length : K) * mass dist + (dist.length : K))
+        ≤ prob (simulateRaw minP dist ds minPhotons).1 t := by
+  have hslack : 0 ≤ minP * ((ds.length : K) * mass dist + (dist.length : K)) :=
+    mul_nonneg h0 (add_nonneg (mul_nonneg (Nat.cast_nonneg _) (mass_nonneg dist hnn))
+      (Nat.cast_nonneg _))
+  simp only [simulateRaw, if_neg hbr]
+  split
+  · next hthr =>
+    rw [prob_eq_wt _ (simThreshold_nodup minPhotons dist), simThreshold_wt]
+    have hall := detectionType_threshold_all ds hthr
+    have e : (dist.map fun e => e.2 * kprod (kernels (0 : K) ds e.1) t).sum
+        = (dist.map fun e => e.2 * (if e.1.map (min · 1) = t then 1 else 0)).sum := by
+      congr 1
+      apply List.map_congr_left
+      intro e he
+      rw [kprod_threshold 0 ds hall e.1 (hlen e he) t]
+    rw [e]
+    exact ⟨le_refl _, by linarith⟩
+  · have hne : ds ≠ [] := by
+      intro h; subst h; exact hbr (Or.inr rfl)
+    rw [prob_eq_wt _ (simGeneral_nodup minP minPhotons ds dist)]
+    exact simGeneral_wt_bound h0 minPhotons ds hwf hne dist hnn hlen t
+
+/-- **mass book-keeping for `min_p ≥ 0`: nothing is gained, and at most `min_p` per `add` call is
+lost.** In whichever branch, for every list of constructible detectors, every non-negative input
+distribution over states of the right length and every photon filter:
+  `mass(dist) − min_p·addCalls ≤ retained mass + (1 − phys_perf) ≤ mass(dist)`,
+where `addCalls = ∑_{(s,p) ∈ dist} (p·(photons of s) + number of output states recorded for s)`
+counts the `add` calls (those inside `Detector.detect` enter weighted by `p`).  For `min_p = 0` this
+is the identity of `simulate_detectors_mass`. -/
+theorem simulate_detectors_mass_minp {minP : K} (h0 : 0 ≤ minP) (ds : List (AnyDet K))
+    (hwf : ∀ d ∈ ds, d.WF) (dist : Dist (List ℕ) K) (hnn : Nonneg dist)
+    (hlen : ∀ e ∈ dist, e.1.length = ds.length) (minPhotons : Option ℕ) :
+    mass (simulateRaw minP dist ds minPhotons).1 + (1 - (simulateRaw minP dist ds minPhotons).2)
+        ≤ mass dist ∧
+      mass dist - minP * addCalls minP ds dist
+        ≤ mass (simulateRaw minP dist ds minPhotons).1
+          + (1 - (simulateRaw minP dist ds minPhotons).2) := by
+  have hslack : 0 ≤ minP * addCalls minP ds dist :=
+    mul_nonneg h0 (addCalls_nonneg minP ds dist hnn)
+  have hbal : mass dist - 1 - minP * addCalls minP ds dist
+        ≤ bal (simulateRaw minP dist ds minPhotons) ∧
+      bal (simulateRaw minP dist ds minPhotons) ≤ mass dist - 1 := by
+    unfold simulateRaw
+    simp only []
+    split
+    · simp only [bal]; constructor <;> linarith
+    · next h1 =>
+      split
+      · rw [simThreshold_bal minPhotons dist]; constructor <;> linarith
+      · have hne : ds ≠ [] := by
+          intro h; subst h; exact h1 (Or.inr rfl)
+        exact simGeneral_bal_bounds h0 minPhotons ds hwf hne dist hnn hlen
+  unfold bal at hbal
+  constructor <;> linarith [hbal.1, hbal.2]
+
 end sim
+
+
+/-! ## `check_heralds_detectors` -/
+section heralds
+variable {K : Type}
+
+/-- **when `check_heralds_detectors` returns `False`.** Exactly when both arguments are non-empty
+and, reading the heralds in dictionary order, some herald `(mode, value)` *exceeds* its detector —
+`detectors[mode]` is set, has a finite `max_detections`, and `max_detections < value`
+(`HeraldExceeds`) — while every herald before it addresses an existing mode (otherwise the
+`IndexError` comes first). -/
+theorem check_heralds_false_iff (heralds : List (ℕ × ℕ)) (ds : List (AnyDet K)) :
+    checkHeralds heralds ds = .ok false ↔
+      ds ≠ [] ∧ ∃ pre x post, heralds = pre ++ x :: post ∧
+        (∀ y ∈ pre, HeraldInRange ds y) ∧ HeraldExceeds ds x := by
+  by_cases h1 : heralds = []
+  · subst h1
+    rw [checkHeralds_trivial _ _ (Or.inl rfl)]
+    constructor
+    · intro h; cases h
+    · rintro ⟨_, pre, x, post, e, _⟩; cases pre <;> simp at e
+  by_cases h2 : ds = []
+  · subst h2
+    rw [checkHeralds_trivial _ _ (Or.inr rfl)]
+    constructor
+    · intro h; cases h
+    · rintro ⟨h, _⟩; exact absurd rfl h
+  rw [checkHeralds_eq_go _ _ h1 h2, go_false_iff]
+  exact ⟨fun h => ⟨h2, h⟩, fun h => h.2⟩
+
+/-- **when it returns `True`**: an argument is empty/`None`, or every herald addresses an existing
+mode and none exceeds its detector -/
+theorem check_heralds_true_iff (heralds : List (ℕ × ℕ)) (ds : List (AnyDet K)) :
+    checkHeralds heralds ds = .ok true ↔
+      heralds = [] ∨ ds = [] ∨ ∀ x ∈ heralds, HeraldInRange ds x ∧ ¬ HeraldExceeds ds x := by
+  by_cases h1 : heralds = []
+  · exact ⟨fun _ => Or.inl h1, fun _ => checkHeralds_trivial _ _ (Or.inl h1)⟩
+  by_cases h2 : ds = []
+  · exact ⟨fun _ => Or.inr (Or.inl h2), fun _ => checkHeralds_trivial _ _ (Or.inr h2)⟩
+  rw [checkHeralds_eq_go _ _ h1 h2, go_true_iff]
+  simp [h1, h2]
+
+/-- **when it raises**: only `IndexError`, exactly when both arguments are non-empty and the first
+herald that does not pass addresses a mode outside the detector list -/
+theorem check_heralds_error_iff (heralds : List (ℕ × ℕ)) (ds : List (AnyDet K)) (msg : String) :
+    checkHeralds heralds ds = .error msg ↔
+      msg = "IndexError" ∧ ds ≠ [] ∧ ∃ pre x post, heralds = pre ++ x :: post ∧
+        (∀ y ∈ pre, HeraldInRange ds y ∧ ¬ HeraldExceeds ds y) ∧ ¬ HeraldInRange ds x := by
+  by_cases h1 : heralds = []
+  · subst h1
+    rw [checkHeralds_trivial _ _ (Or.inl rfl)]
+    constructor
+    · intro h; cases h
+    · rintro ⟨_, _, pre, x, post, e, _⟩; cases pre <;> simp at e
+  by_cases h2 : ds = []
+  · subst h2
+    rw [checkHeralds_trivial _ _ (Or.inr rfl)]
+    constructor
+    · intro h; cases h
+    · rintro ⟨_, h, _⟩; exact absurd rfl h
+  rw [checkHeralds_eq_go _ _ h1 h2, go_error_iff]
+  exact ⟨fun h => ⟨h.1, h2, h.2⟩, fun h => ⟨h.1, h.2.2⟩⟩
+
+/-- the usual situation (`Processor` heralds always address modes of the circuit): with every herald
+in range and a non-empty detector list the function never raises and returns `False` exactly when
+SOME herald exceeds its detector -/
+theorem check_heralds_in_range (heralds : List (ℕ × ℕ)) (ds : List (AnyDet K)) (hds : ds ≠ [])
+    (hr : ∀ x ∈ heralds, HeraldInRange ds x) :
+    (checkHeralds heralds ds = .ok false ↔ ∃ x ∈ heralds, HeraldExceeds ds x) ∧
+      (checkHeralds heralds ds = .ok true ↔ ∀ x ∈ heralds, ¬ HeraldExceeds ds x) := by
+  constructor
+  · rw [check_heralds_false_iff]
+    constructor
+    · rintro ⟨_, pre, x, post, rfl, _, hx⟩
+      exact ⟨x, by simp, hx⟩
+    · rintro ⟨x, hx, he⟩
+      obtain ⟨pre, post, rfl⟩ := List.append_of_mem hx
+      exact ⟨hds, pre, x, post, rfl, fun y hy => hr y (by simp [hy]), he⟩
+  · rw [check_heralds_true_iff]
+    constructor
+    · rintro (h | h | h)
+      · subst h; intro x hx; simp at hx
+      · exact absurd h hds
+      · exact fun x hx => (h x hx).2
+    · intro h
+      exact Or.inr (Or.inr fun x hx => ⟨hr x hx, h x hx⟩)
+
+/-- what "exceeds" means per kind of detector: an unset detector and `Detector.pnr()` are never
+exceeded; `Detector(w, max)` is exceeded by a herald value above `max` (`= w` when no
+`max_detections` was given); `BSLayeredPPNR(L, r)` by a value above `2^L` -/
+theorem herald_exceeds_iff (ds : List (AnyDet K)) (h : ℕ × ℕ) :
+    HeraldExceeds ds h ↔
+      (∃ w mx, ds[h.1]? = some (.det (.wired w mx)) ∧ mx < h.2) ∨
+      (∃ L r, ds[h.1]? = some (.bs L r) ∧ 2 ^ L < h.2) :=
+  heraldExceeds_iff ds h
+
+end heralds
 
 
 /-! ## `simulate_detectors_sample` (one output sample through the detectors) -/
@@ -471,6 +720,64 @@ example :
     have hd : (Det.wired 2 2).detect (0 : ℚ) 2 = .dist [(1, 1 / 2), (2, 1 / 2)] := by
       rw [detect_wired_big 2 2 0 (by omega) (by omega), h]
     norm_num [kernels, kprod, AnyDet.kernel, AnyDet.detect, hd, DetOut.toDist, wt]
+
+/-- `bsTree_half_eq_detector`: `Detector(2^2)` is constructible; and a value of the tree law -/
+example : mkDetector (some (2 ^ 2)) none = .ok (.wired 4 4) := rfl
+
+example : prob (bsDetect 1 (1 / 2 : ℚ) 2).toDist 1 = 1 / 2 := by
+  rw [bsTree_half_closed]; norm_num [Nat.stirlingSecond, Nat.choose]
+
+/-- `simulate_detectors_minp_bound` / `simulate_detectors_mass_minp`: hypotheses satisfiable at the shipped `min_p = 1e-16`
+(`[Detector.ppnr(2), None]`, a normalised input, general branch) -/
+example :
+    let ds : List (AnyDet ℚ) := [.det (.wired 2 2), .none]
+    let dist : Dist (List ℕ) ℚ := [([2, 0], 1 / 2), ([1, 1], 1 / 2)]
+    (0 : ℚ) ≤ 1 / 10 ^ 16 ∧ (∀ d ∈ ds, d.WF) ∧ Nonneg dist ∧
+      (∀ e ∈ dist, e.1.length = ds.length) ∧ ¬ (dist.isEmpty ∨ detectionType ds = .PNR) := by
+  refine ⟨by norm_num, ?_, ?_, ?_, ?_⟩
+  · intro d hd
+    simp only [List.mem_cons, List.not_mem_nil, or_false] at hd
+    rcases hd with rfl | rfl
+    · show 0 < 2; omega
+    · trivial
+  · intro e he
+    simp only [List.mem_cons, List.not_mem_nil, or_false] at he
+    rcases he with rfl | rfl <;> norm_num
+  · intro e he
+    simp only [List.mem_cons, List.not_mem_nil, or_false] at he
+    rcases he with rfl | rfl <;> rfl
+  · simp [detectionType, detTypeLoop, AnyDet.type, Det.type]
+
+/-- `check_heralds_*`: a herald of 3 photons on `Detector.ppnr(2)` exceeds it (result `False`), a
+herald of 2 does not (`True`), a herald on a mode outside the list raises -/
+example :
+    let ds : List (AnyDet ℚ) := [.det (.wired 2 2), .none]
+    HeraldExceeds ds (0, 3) ∧ ¬ HeraldExceeds ds (0, 2) ∧ HeraldInRange ds (0, 3) ∧
+      ¬ HeraldInRange ds (2, 1) ∧ ds ≠ [] ∧
+      checkHeralds [(1, 7), (0, 3)] ds = .ok false ∧
+      checkHeralds [(1, 7), (0, 2)] ds = .ok true ∧
+      checkHeralds [(2, 1), (0, 3)] ds = .error "IndexError" := by
+  refine ⟨⟨_, 2, rfl, rfl, by omega⟩, ?_, by show 0 < 2; omega, by show ¬ 2 < 2; omega,
+    by simp, rfl, rfl, rfl⟩
+  rintro ⟨d, mx, h1, h2, h3⟩
+  simp only [List.getElem?_cons_zero, Option.some.injEq] at h1
+  subst h1
+  simp only [AnyDet.maxDetections, Det.maxDetections, Option.some.injEq] at h2
+  subst h2
+  omega
+
+/-
+  STILL NOT PROVED (validated by the correspondence only):
+  * that the native SLOS backend returns, on `BSLayeredPPNR.create_circuit()`, the multinomial leaf law
+    `treeOcc` (a statement about compiled code outside the model — compared on every run);
+  * for `min_p > 0`: a pointwise bound for the NORMALISED result and for `phys_perf` alone (proved are:
+    the un-normalised pointwise bound `simulate_detectors_minp_bound`, the mass/performance balance
+    `simulate_detectors_mass_minp`, the exact laws `simulate_detectors_pointwise_minp` /
+    `kernel_entry_minp` / `detect_fold_minp`, and `simulate_detectors_normalised` (any `min_p`), from
+    which such a bound follows by dividing — not carried out);
+  * `sample_law_is_kernel_product` for `min_p > 0`; `prob_threshold > 0`; the statistical quality of
+    `BSDistribution.sample`.
+-/
 
 end examples
 
